@@ -3,7 +3,7 @@ From Coq Require Import List NArith Bool String.
 From PV Require Import Base.Base64 Model.ShareLink Model.ShareLinkProofs.
 From PVGen Require Import GenShare.
 Import ListNotations.
-Open Scope N_scope.
+Local Open Scope N_scope.
 
 (* Tie (translator): the replacement chains, padding rule and call pipelines read from
    types.py on this run are the ones the model below is about. *)
